@@ -8,6 +8,7 @@ hand-written model of normalize_predicate.py (tied by correspondence, harness/c1
 import Paroxy.Gen.CompareSpans
 import Paroxy.Spec.NormalizePredicate
 import Paroxy.Proofs.NormalizePredicate
+import Paroxy.Proofs.NormalizeAbbrev
 namespace Paroxy.Props.C16
 open Paroxy Paroxy.Spec Paroxy.NP Paroxy.Spec.NP
 
@@ -228,5 +229,145 @@ example : (codesOf "is not ", codesOf "", true) ∈ coreDecorations := by decide
 example : lower (codesOf "Is NOT Started BY") = codesOf "is not " ++ codesOf "started by" ++ codesOf "" := by
   decide +kernel
 example : renderName (codesOf "inside") [true, false, true] = codesOf "InSide" := by decide +kernel
+
+/-! ### Abbreviated spellings under every decoration (round 10, E3)
+
+`C16_abbrev` / `C16_abbrev_all` above are kernel evaluations over the 60 BARE abbreviations. The
+theorems below are general: `k` any of the 162 keys, `ab` any abbreviation the key has
+(`ab.applies k`: a single letter for the adjacent pair `c≤c` at letters 1-2, 2-3 or 3-4, for both outer
+pairs, or `x=y` / `y=x` for the identity — 60 pairs `(ab, k)` in all, `abbrevPairs`), `st` ANY style:
+arbitrary junk strings around and between the kept tokens (`junkOk`), operands in either case with
+an optional index digit (the code erases digits, so `X1<y2` is `x<y`), operators canonical or
+`<=` / `==`. Same negation markers, `is` variants and side conditions as the `C16_formula_*` family.
+They are derived from one fact (`body_lower_abbrev`): the code's expansion step maps the bare
+abbreviation to the key (`C16_abbrev_expands`), hence an abbreviated spelling goes through the
+pipeline exactly as the full spelling with the same decoration does. -/
+
+/-- The expansion step of the code (`x=y` ↦ `x=y≤x=y`, single `x` ↦ `x≤x`, single `y` ↦ `y≤y`) sends the
+salvaged abbreviated spelling where it sends the salvaged FULL spelling with the same decoration: to
+the key. Unbounded in the junk. -/
+theorem C16_abbrev_expands (k : Key) (hk : k ∈ allKeys) (ab : Abbrev) (ha : ab.applies k = true)
+    (st : FormulaStyle) (hj : st.junkOk = true) :
+    salvage (lower (renderAbbrev k ab st)) = k.codes ∧
+    salvage (lower (renderAbbrev k ab st)) = salvage (lower (renderFormula k st)) := by
+  have ok := styleOk_of_junkOk hj
+  have h1 := body_salvage (body_lower_abbrev k hk ab ha st ok)
+  refine ⟨h1, ?_⟩
+  rw [h1, lower_formula k st ok, salvage_formula k hk _ (styleOk_low ok) (isLower_low st)]
+
+/-- **C16 (abbreviations, all junk).** Every abbreviated spelling of every key that has one, under
+every admissible decoration, resolves to that key, not negated. -/
+theorem C16_abbrev_formula (k : Key) (hk : k ∈ allKeys) (ab : Abbrev) (ha : ab.applies k = true)
+    (st : FormulaStyle) (hj : st.junkOk = true) :
+    normalize names (renderAbbrev k ab st) = some (k.codes, false) :=
+  body_plain hk (body_lower_abbrev k hk ab ha st (styleOk_of_junkOk hj))
+
+/-- With a leading `!` (any white space around it): negated. -/
+theorem C16_abbrev_bang (k : Key) (hk : k ∈ allKeys) (ab : Abbrev) (ha : ab.applies k = true)
+    (st : FormulaStyle) (hj : st.junkOk = true) {ws ws2 : Str} (hws : ws.all isSpace = true)
+    (hws2 : ws2.all isSpace = true) :
+    normalize names (ws ++ 33 :: ws2 ++ renderAbbrev k ab st) = some (k.codes, true) :=
+  body_bang hk (body_lower_abbrev k hk ab ha st (styleOk_of_junkOk hj)) hws hws2
+
+/-- `not A` ↦ negated. -/
+theorem C16_abbrev_not_prefix (k : Key) (hk : k ∈ allKeys) (ab : Abbrev) (ha : ab.applies k = true)
+    (st : FormulaStyle) (hj : st.junkOk = true) {ws wN : Str} (hws : ws.all isSpace = true)
+    (hN : lower wN = sNot) :
+    normalize names (ws ++ wN ++ 32 :: renderAbbrev k ab st) = some (k.codes, true) :=
+  body_not_prefix hk (body_lower_abbrev k hk ab ha st (styleOk_of_junkOk hj)) hws hN
+
+/-- `A not` ↦ negated. -/
+theorem C16_abbrev_not_suffix (k : Key) (hk : k ∈ allKeys) (ab : Abbrev) (ha : ab.applies k = true)
+    (st : FormulaStyle) (hj : st.junkOk = true) {ws wN : Str} (hws : ws.all isSpace = true)
+    (hN : lower wN = sNot) :
+    normalize names (renderAbbrev k ab st ++ 32 :: wN ++ ws) = some (k.codes, true) :=
+  body_not_suffix hk (body_lower_abbrev k hk ab ha st (styleOk_of_junkOk hj)) hws hN
+
+/-- `is A` ↦ not negated. -/
+theorem C16_abbrev_is_prefix (k : Key) (hk : k ∈ allKeys) (ab : Abbrev) (ha : ab.applies k = true)
+    (st : FormulaStyle) (hj : st.junkOk = true) {ws wI : Str} (hws : ws.all isSpace = true)
+    (hI : lower wI = sIs) :
+    normalize names (ws ++ wI ++ 32 :: renderAbbrev k ab st) = some (k.codes, false) :=
+  body_is_prefix hk (body_lower_abbrev k hk ab ha st (styleOk_of_junkOk hj)) hws hI
+
+/-- `A is` ↦ not negated. -/
+theorem C16_abbrev_is_suffix (k : Key) (hk : k ∈ allKeys) (ab : Abbrev) (ha : ab.applies k = true)
+    (st : FormulaStyle) (hj : st.junkOk = true) {ws wI : Str} (hws : ws.all isSpace = true)
+    (hI : lower wI = sIs) :
+    normalize names (renderAbbrev k ab st ++ 32 :: wI ++ ws) = some (k.codes, false) :=
+  body_is_suffix hk (body_lower_abbrev k hk ab ha st (styleOk_of_junkOk hj)) hws hI
+
+/-- `is not A` ↦ negated. -/
+theorem C16_abbrev_is_not (k : Key) (hk : k ∈ allKeys) (ab : Abbrev) (ha : ab.applies k = true)
+    (st : FormulaStyle) (hj : st.junkOk = true) {ws ws2 wI wN : Str} (hws : ws.all isSpace = true)
+    (hws2 : ws2.all isSpace = true) (hI : lower wI = sIs) (hN : lower wN = sNot) :
+    normalize names (ws ++ wI ++ 32 :: ws2 ++ wN ++ 32 :: renderAbbrev k ab st) = some (k.codes, true) :=
+  body_is_not_prefix hk (body_lower_abbrev k hk ab ha st (styleOk_of_junkOk hj)) hws hws2 hI hN
+
+/-- `is A not` ↦ negated. -/
+theorem C16_abbrev_is_prefix_not_suffix (k : Key) (hk : k ∈ allKeys) (ab : Abbrev)
+    (ha : ab.applies k = true) (st : FormulaStyle) (hj : st.junkOk = true) {ws ws' wI wN : Str}
+    (hws : ws.all isSpace = true) (hws' : ws'.all isSpace = true) (hI : lower wI = sIs) (hN : lower wN = sNot) :
+    normalize names (ws ++ wI ++ 32 :: renderAbbrev k ab st ++ 32 :: wN ++ ws') = some (k.codes, true) :=
+  body_is_prefix_not_suffix hk (body_lower_abbrev k hk ab ha st (styleOk_of_junkOk hj)) hws hws' hI hN
+
+/-- `A is not` ↦ negated. -/
+theorem C16_abbrev_is_not_suffix (k : Key) (hk : k ∈ allKeys) (ab : Abbrev) (ha : ab.applies k = true)
+    (st : FormulaStyle) (hj : st.junkOk = true) {ws ws2 wI wN : Str} (hws : ws.all isSpace = true)
+    (hws2 : ws2.all isSpace = true) (hI : lower wI = sIs) (hN : lower wN = sNot) :
+    normalize names (renderAbbrev k ab st ++ 32 :: wI ++ ws2 ++ 32 :: wN ++ ws) = some (k.codes, true) :=
+  body_is_not_suffix hk (body_lower_abbrev k hk ab ha st (styleOk_of_junkOk hj)) hws hws2 hI hN
+
+/-- `not is A` ↦ negated. -/
+theorem C16_abbrev_not_is (k : Key) (hk : k ∈ allKeys) (ab : Abbrev) (ha : ab.applies k = true)
+    (st : FormulaStyle) (hj : st.junkOk = true) {ws ws2 wI wN : Str} (hws : ws.all isSpace = true)
+    (hws2 : ws2.all isSpace = true) (hI : lower wI = sIs) (hN : lower wN = sNot) :
+    normalize names (ws ++ wN ++ 32 :: ws2 ++ wI ++ 32 :: renderAbbrev k ab st) = some (k.codes, true) :=
+  body_not_is_prefix hk (body_lower_abbrev k hk ab ha st (styleOk_of_junkOk hj)) hws hws2 hI hN
+
+/-- `! is A` ↦ negated. -/
+theorem C16_abbrev_bang_is (k : Key) (hk : k ∈ allKeys) (ab : Abbrev) (ha : ab.applies k = true)
+    (st : FormulaStyle) (hj : st.junkOk = true) {ws ws2 wI : Str} (hws : ws.all isSpace = true)
+    (hws2 : ws2.all isSpace = true) (hI : lower wI = sIs) :
+    normalize names (ws ++ 33 :: ws2 ++ wI ++ 32 :: renderAbbrev k ab st) = some (k.codes, true) :=
+  body_bang_is_prefix hk (body_lower_abbrev k hk ab ha st (styleOk_of_junkOk hj)) hws hws2 hI
+
+/-- `! A is` ↦ negated. -/
+theorem C16_abbrev_bang_is_suffix (k : Key) (hk : k ∈ allKeys) (ab : Abbrev) (ha : ab.applies k = true)
+    (st : FormulaStyle) (hj : st.junkOk = true) {ws ws' wI : Str} (hws : ws.all isSpace = true)
+    (hws' : ws'.all isSpace = true) (hI : lower wI = sIs) :
+    normalize names (ws ++ 33 :: renderAbbrev k ab st ++ 32 :: wI ++ ws') = some (k.codes, true) :=
+  body_bang_is_suffix hk (body_lower_abbrev k hk ab ha st (styleOk_of_junkOk hj)) hws hws' hI
+
+/-- **Every decoration of the specification's list around every abbreviated spelling**: the key and
+the decoration's negation flag (negated exactly when the decoration carries `!`, `not ` or ` not`). -/
+theorem C16_abbrev_decorated (k : Key) (hk : k ∈ allKeys) (ab : Abbrev) (ha : ab.applies k = true)
+    (st : FormulaStyle) (hj : st.junkOk = true) (d : Str × Str × Bool) (hd : d ∈ decorations) :
+    normalize names (d.1 ++ renderAbbrev k ab st ++ d.2.1) = some (k.codes, d.2.2) :=
+  body_spec_decorated hk (body_lower_abbrev k hk ab ha st (styleOk_of_junkOk hj)) d hd
+
+/-- The general theorems do cover the finite tables: each of the 58 single-letter spellings of
+`allAbbrevs` (and `x=y`, `y=x`) is the undecorated rendering of an abbreviation its key has. -/
+theorem C16_abbrev_covers (s : Codes) (k : Key) (h : (s, k) ∈ allAbbrevs ∨ (s, k) ∈ abbreviations.take 2) :
+    ∃ ab : Abbrev, ab.applies k = true ∧ renderAbbrev k ab {} = s := by
+  have h' : (allAbbrevs ++ abbreviations.take 2).all (fun p =>
+      allAbbrevKinds.any fun ab => ab.applies p.2 && (abbrevCodes ab p.2 == p.1)) = true := by decide +kernel
+  have hm : (s, k) ∈ allAbbrevs ++ abbreviations.take 2 := List.mem_append.mpr h
+  obtain ⟨ab, _, hab⟩ := List.any_eq_true.mp (List.all_eq_true.mp h' (s, k) hm)
+  simp only [Bool.and_eq_true, beq_iff_eq] at hab
+  exact ⟨ab, hab.1, by rw [abbrev_bare]; exact hab.2⟩
+
+-- Non-vacuity: 60 (abbreviation, key) pairs; `NOT  (X1) <= y2_` is `C16_abbrev_not_prefix` for `x≤x≤y≤y`.
+example : abbrevPairs.length = 60 := by decide +kernel
+example : Abbrev.both.applies ⟨.x, .x, .y, .y, .le, .le, .le⟩ = true := by decide
+example : Abbrev.both.applies ⟨.x, .x, .y, .y, .le, .eq, .le⟩ = false := by decide
+example : Abbrev.identYX.applies identityKey = true := by decide
+example : codesOf "NOT" ++ 32 :: renderAbbrev ⟨.x, .x, .y, .y, .le, .le, .le⟩ .both
+    { s1 := { upper := true, index := some 1 }, s3 := { index := some 2 }, p2 := .ascii,
+      j0 := [32, 40], j1 := [41, 32], j4 := [32], j7 := [95] } = codesOf "NOT  (X1) <= y2_" := by decide +kernel
+example : renderAbbrev identityKey .identYX { s1 := { upper := true }, p1 := .ascii, j2 := [32] } =
+    codesOf "Y== x" := by decide +kernel
+example : renderAbbrev ⟨.y, .x, .x, .y, .lt, .le, .le⟩ .p2 { j1 := [32], p3 := .ascii } = codesOf "y <x<=y" := by
+  decide +kernel
 
 end Paroxy.Props.C16
